@@ -92,6 +92,10 @@ def compare_model(model, I, twopl):
     # derived partitions
     def key(p):
         return (p.studentID, p.projectID)
+    for name, n in (('project_lists', I['n2']), ('lecturer_lists', I['n3'])):
+        if len(getattr(model, name)) != n:
+            raise Violation('model:' + name, 'Model.%s has %d entries, the file denotes %d %s'
+                            % (name, len(getattr(model, name)), n, name.split('_')[0] + 's'))
     for j in range(I['n2']):
         got = sorted(key(p) for p in model.project_lists[j])
         want = sorted((w[0], w[1]) for w in want_all if w[1] == j + 1)
